@@ -16,6 +16,9 @@ NCPU = min(16, os.cpu_count() or 1)
 for _v in ('OMP_NUM_THREADS', 'OPENBLAS_NUM_THREADS', 'MKL_NUM_THREADS', 'NUMEXPR_NUM_THREADS'):
     os.environ.setdefault(_v, '1')
 os.environ.setdefault('PYTHONHASHSEED', '0')
+os.environ.setdefault('PYTHONWARNINGS', 'ignore')
+import warnings  # noqa: E402
+warnings.filterwarnings('ignore')
 
 
 def use_repo():
